@@ -78,7 +78,8 @@ RecordFields ==
   [IR1 |-> <<<<"A", B("int")>>, <<"B", B("string")>>>>,
    IR2 |-> <<<<"Name", B("string")>>, <<"Vals", <<"slice", B("int")>>>>>>,
    IR3 |-> <<<<"C", B("int")>>, <<"D", B("string")>>>>,
-   IBox |-> <<<<"Val", SVar(1)>>, <<"Tag", B("string")>>>>]
+   IBox |-> <<<<"Val", SVar(1)>>, <<"Tag", B("string")>>>>,
+   IPair |-> <<<<"Fst", SVar(1)>>, <<"Snd", SVar(2)>>>>]
 RECURSIVE InstArgs(_, _)
 InstArgs(t, targs) ==
   CASE t[1] = "svar"  -> targs[t[2]]
